@@ -129,6 +129,13 @@ def _client_ops(client, ops, model, what, state):
         continue
       check(isinstance(got[1], courier_utils.RemoteObject), 'lazy-result-not-a-remote-object', f'{w}: got {got[1]!r}')
       handles.append((got[1], targets.Counting(base)))
+    elif k == 'flood_remote':
+      # many more server-held objects are created (more than 2**8) while the handles obtained so far stay in use
+      for j in range(op[1]):
+        got = answer(lambda: client.get_result(lf.trace(targets.make_counting)(1000 + j, lazy_result_=True)))
+        if got[0] != 'value':
+          check(state['shutdown'] and got[0] == 'timeout', 'remote-object-not-created', f'{w}: {got}')
+          break
     elif k in ('ro_call', 'ro_attr', 'ro_item', 'ro_ocall'):
       if not handles:
         continue
@@ -327,6 +334,11 @@ def strat(tier):
       if nclients > 1:
         ops = [_strip_cache(o) for o in ops]
       clients.append(ops)
+    if nclients == 1 and draw(st.integers(0, 19)) == 0:
+      ops0 = clients[0]
+      ops0[:0] = [['remote_obj', 2], ['remote_obj', 3]]
+      ops0.insert(draw(st.integers(2, len(ops0))), ['flood_remote', draw(st.sampled_from([255, 256, 257, 300]))])
+      ops0 += [['ro_attr', 0, 'base'], ['ro_attr', 1, 'base'], ['ro_call', 0, 1]]
     if nclients == 1 and draw(st.integers(0, 3)) == 0:
       clients[0].insert(draw(st.integers(0, len(clients[0]))), ['shutdown'])
     elif nclients == 1 and draw(st.integers(0, 3)) == 0:
